@@ -31,6 +31,7 @@ type OSFault struct {
 type C06Scenario struct {
 	RunSpec
 	CwdMirror bool      `json:"cwd_mirror,omitempty"` // the working directory holds a copy of the tree (relative-path writes would hit it)
+	TmpAbove  bool      `json:"tmp_above,omitempty"`  // scan root and working directory lie below the temporary directory
 	OSFaults  []OSFault `json:"os_faults,omitempty"`
 }
 
@@ -39,7 +40,7 @@ type C06 struct{}
 func (C06) ID() string { return "C06" }
 
 func (C06) Rule() string {
-	return "(scan) Tree placing valid, empty, truncated and corrupted repository fixtures of the built-in extractors' formats at production paths (probed with the real FileRequired; rpm databases, .NET PE files and containerd meta.db variants over-weighted: valid meta.db + snapshotter directory without metadata.db, empty meta.db, ...), scanned with every extractor the capabilities allow (i) through a real sandbox directory with DirectFS and (ii) through SimFS with a virtual root (GetRealPath temporary copies), with/without a read fault during the copy, OS-call faults in the copy (MkdirTemp/Create fail, ENOSPC after n bytes; build-time overlay) and cancellation mid-scan. Sandbox = {scanroot, cwd (decoys named like temporary files, optionally a mirror of the tree), tmp}; oracle = recursive snapshot (path, type, link target, size, mode, SHA-256) of scanroot and cwd identical before/after and tmp empty after Scan returns. Non-trivial = at least one Extract call of an extractor that touches the host file system (os/rpm, dotnet/pe, containers/containerd) happened, or a fault fired, or the scan was cancelled after it started. " + theTable().summary()
+	return "(scan) Tree placing valid, empty, truncated and corrupted repository fixtures of the built-in extractors' formats at production paths (probed with the real FileRequired; rpm databases, .NET PE files and containerd meta.db variants over-weighted: valid meta.db + snapshotter directory without metadata.db, empty meta.db, ...), scanned with every extractor the capabilities allow (i) through a real sandbox directory with DirectFS and (ii) through SimFS with a virtual root (GetRealPath temporary copies), with/without a read fault during the copy, OS-call faults in the copy (MkdirTemp/Create fail, ENOSPC after n bytes; build-time overlay) and cancellation mid-scan. Sandbox = {scanroot, cwd (decoys named like temporary files, optionally a mirror of the tree), tmp}, side by side or (1 in 4) with scanroot and cwd below the temporary directory; oracle = recursive snapshot (path, type, link target, size, mode, SHA-256) of scanroot and cwd identical before/after and tmp empty after Scan returns. Non-trivial = at least one Extract call of an extractor that touches the host file system (os/rpm, dotnet/pe, containers/containerd) happened, or a fault fired, or the scan was cancelled after it started. " + theTable().summary()
 }
 
 func (C06) Decode(raw json.RawMessage) (any, error) {
@@ -140,6 +141,7 @@ func (C06) Gen(rt *rapid.T, tier string) any {
 	sc.Files = p.files
 	sc.Order.Rev = rapid.Bool().Draw(rt, "rev")
 	sc.CwdMirror = chance(rt, 40, "mirror")
+	sc.TmpAbove = chance(rt, 25, "tmpabove")
 	if mode == "sim" {
 		sc.Disk.Chunk = chunkFor(rt, totalSize(sc.Files))
 		sc.Disk.EOFWithData = rapid.Bool().Draw(rt, "eofdata")
@@ -231,7 +233,7 @@ func (C06) evaluate(sc *C06Scenario) *sim.Outcome {
 		return o
 	}
 	out := &sim.Outcome{}
-	sb, err := newSandbox()
+	sb, err := newSandbox(sc.TmpAbove)
 	if err != nil {
 		panic("harness: " + err.Error())
 	}
@@ -389,6 +391,14 @@ func (C06) evaluate(sc *C06Scenario) *sim.Outcome {
 		}
 	}
 	left := snapshot(sb.Tmp)
+	if sc.TmpAbove {
+		// scanroot and cwd are legitimate inhabitants of the temporary directory in this layout
+		for p := range left {
+			if top := strings.SplitN(p, "/", 2)[0]; top == "scanroot" || top == "cwd" {
+				delete(left, p)
+			}
+		}
+	}
 	var leaks []sim.Violation
 	seen := map[string]bool{}
 	for _, p := range sortedKeys(left) {
@@ -469,6 +479,7 @@ func minimiseC06(sc *C06Scenario, still func(*C06Scenario) bool) *C06Scenario {
 		func(y *C06Scenario) bool { r := len(y.Disk.Faults) > 0; y.Disk.Faults = nil; return r },
 		func(y *C06Scenario) bool { r := len(y.OSFaults) > 0; y.OSFaults = nil; return r },
 		func(y *C06Scenario) bool { r := y.CwdMirror; y.CwdMirror = false; return r },
+		func(y *C06Scenario) bool { r := y.TmpAbove; y.TmpAbove = false; return r },
 		func(y *C06Scenario) bool { r := len(y.Dirs) > 0; y.Dirs = nil; return r },
 		func(y *C06Scenario) bool {
 			r := y.Disk.Chunk != 0 || y.Disk.EOFWithData
